@@ -1,8 +1,8 @@
-\* C17 small-scope lemma: all well-formed heaps of 3 nodes over 2 memory cells (own regions only; 3 cells: 605k states, same result).
+\* C17 small-scope lemma: all well-formed heaps of 3 nodes over 3 memory cells (own regions only).
 SPECIFICATION Spec
 CONSTANTS
     MaxNodes = 3
-    NCells = 2
+    NCells = 3
     WithBacking = FALSE
 INVARIANTS Lemma ObservedOnlyIfShared CellsAgree
 CHECK_DEADLOCK FALSE
